@@ -78,6 +78,30 @@ theorem stamp_persisted (s : St) (n : String) (now : Int) (c : CEntry) (h : s.m[
     (docOf (read s n now).1.m)[n]? = some (c.sv, now) := by
   simp [docOf, ExtTreeMap.getElem?_filterMap', (read_stamps s n now c h).1]
 
+/-- ...at the latest when the store is closed: T1, the poller's exit path is "log, lock, deferred
+unlock, flush (its error only logged), return" - nothing stands between taking the lock and the
+flush. -/
+theorem fact_shutdown_flushes :
+    Facts.runShutdownPath = ["logf", "Lock", "defer Unlock", "if(flushCacheLocked; err != nil){logf}", "return"] := by
+  decide
+
+/-- The rule holds across a restart: a secret read at `now` in a store with a cache; the store
+is closed; a new process loads what the cache holds.  The entry it finds carries `now` as its
+access time, so at any later `now'` the poll's expiry decision is the one the statement gives:
+configured age, not declared by the new process, and not read for longer than that age -
+counted from that read. -/
+theorem rule_holds_across_restart (s : St) (hc : s.hasCache = true) (n : String) (now now' age : Int) (c : CEntry)
+    (h : s.m[n]? = some (some c)) :
+    ∃ d c', (shutdown (read s n now).1).cache = some d ∧ (loadCache (.doc d))[n]? = some (some c') ∧
+      c'.sv = c.sv ∧ c'.lastAccess = now ∧
+      hasExpired age now' c' = (decide (age > 0) && (now == 0 || decide (now' - now > age))) := by
+  have hm := (read_stamps s n now c h).1
+  have hcache : (read s n now).1.hasCache = true := by simp [Store.read, h, hc]
+  refine ⟨docOf (read s n now).1.m, { c with lastAccess := now, declared := false }, ?_, ?_, rfl, rfl, ?_⟩
+  · simp [shutdown, flush, hcache]
+  · simp only [loadCache, docOf, ExtTreeMap.getElem?_map, ExtTreeMap.getElem?_filterMap', hm]; simp
+  · simp [hasExpired]
+
 /-- non-vacuity: an undeclared entry read 11 s ago with a 10 s age is expired; read 5 s ago it is not -/
 example : hasExpired 10 111 { sv := ⟨[1], 1⟩, lastAccess := 100, declared := false } = true ∧
     hasExpired 10 105 { sv := ⟨[1], 1⟩, lastAccess := 100, declared := false } = false := by decide
